@@ -121,12 +121,16 @@ type WK struct {
 	Kind  string // flate | flate4k | flatedict | gzip | zlib | zlibdict
 	Level int
 	Dict  []byte
+	Hdr   bool // gzip only: Name, Comment and Extra are set before the first call (the header goes out in several destination calls)
 }
 
 func (k WK) String() string {
 	s := fmt.Sprintf("%s/L%d", k.Kind, k.Level)
 	if k.Dict != nil {
 		s += fmt.Sprintf("/dict%d", len(k.Dict))
+	}
+	if k.Hdr {
+		s += "/hdr"
 	}
 	return s
 }
@@ -190,6 +194,9 @@ func (k WK) Fast(dst io.Writer) (w WC, err error) {
 		if e != nil || x == nil {
 			return nil, e
 		}
+		if k.Hdr {
+			x.Name, x.Comment, x.Extra = "name.txt", "a comment", []byte{1, 2, 3, 4, 5}
+		}
 		return x, nil
 	case "zlib":
 		x, e := fzlib.NewWriterLevel(dst, k.Level)
@@ -226,6 +233,9 @@ func (k WK) Std(dst io.Writer) (w WC, err error) {
 		x, e := stdgzip.NewWriterLevel(dst, k.Level)
 		if e != nil {
 			return nil, e
+		}
+		if k.Hdr {
+			x.Name, x.Comment, x.Extra = "name.txt", "a comment", []byte{1, 2, 3, 4, 5}
 		}
 		return x, nil
 	case "zlib":
